@@ -259,6 +259,46 @@ var _ = reserr.ErrAccessDenied
 //@       (r.Method == "PUT" || r.Method == "DELETE" || r.Method == "PATCH") && arg1 == reserr.ErrMethodNotAllowed)
 //@   safety[C15]
 
+// --- HTTP rendering (C16) ---
+
+// The expansion path is a stack: rendering a resource leaves it exactly as it found it (same
+// length, same entries) whenever it returns without error; a resource that is already on the
+// path, and a failed resource, are rendered without being pushed.
+//@ define predPathKept(now []string, before []string) bool = len(now) == len(before) &&
+//@     (forall k int :: 0 <= k && k < len(before) ==> now[k] == before[k])
+
+//@ func jsonEncodeError
+//@   trusted
+//@   assigns nothing
+
+// (every reference value has its subscription: graph invariant, assumed)
+//@ func (*encoderJSON).encodeSubscription
+//@   requires e != nil
+//@   assumes s != nil && (s.err != nil ==> reserr.predErrOK(s.err))
+//@   ensures[C16] result == nil ==> len(e.path) == old(len(e.path)) && (forall k int :: 0 <= k && k < len(e.path) ==> e.path[k] == old(e.path[k]))
+//@   loop 1 invariant len(e.path) == old(len(e.path)) + 1 && (forall k int :: 0 <= k && k < old(len(e.path)) ==> e.path[k] == old(e.path[k]))
+//@   loop 2 invariant len(e.path) == old(len(e.path)) + 1 && (forall k int :: 0 <= k && k < old(len(e.path)) ==> e.path[k] == old(e.path[k]))
+//@ func (*encoderJSON).encodeValue
+//@   requires e != nil && s != nil
+//@   ensures[C16] result == nil ==> len(e.path) == old(len(e.path)) && (forall k int :: 0 <= k && k < len(e.path) ==> e.path[k] == old(e.path[k]))
+//@ func (*encoderJSONFlat).encodeSubscription
+//@   requires e != nil
+//@   assumes s != nil && (s.err != nil ==> reserr.predErrOK(s.err))
+//@   ensures[C16] result == nil ==> len(e.path) == old(len(e.path)) && (forall k int :: 0 <= k && k < len(e.path) ==> e.path[k] == old(e.path[k]))
+//@   loop 1 invariant len(e.path) == old(len(e.path)) + 1 && (forall k int :: 0 <= k && k < old(len(e.path)) ==> e.path[k] == old(e.path[k]))
+//@   loop 2 invariant len(e.path) == old(len(e.path)) + 1 && (forall k int :: 0 <= k && k < old(len(e.path)) ==> e.path[k] == old(e.path[k]))
+//@ func (*encoderJSONFlat).encodeValue
+//@   requires e != nil && s != nil
+//@   ensures[C16] result == nil ==> len(e.path) == old(len(e.path)) && (forall k int :: 0 <= k && k < len(e.path) ==> e.path[k] == old(e.path[k]))
+
+// POST results are passed on verbatim; a null result means no content.
+//@ func (*encoderJSON).EncodePOST
+//@   ensures[C16] result1 == nil && (result0 == nil || result0 == r)
+//@   assigns nothing
+//@ func (*encoderJSONFlat).EncodePOST
+//@   ensures[C16] result1 == nil && (result0 == nil || result0 == r)
+//@   assigns nothing
+
 // --- collector helpers (C02) ---
 
 // Unsend: the subscription is no longer counted as sent to the client; every sent resource it
